@@ -262,6 +262,7 @@ func c19RetryWire(kind int, p c19RetryPlan, o c19RetryObs) string {
 	} else {
 		e.Z(int64(certmagic.VerifMaxRetryDuration))
 	}
+	e.Bool(p.HorizonMs > 0)
 	if o.CancelNs >= 0 {
 		e.Bool(true).Z(o.CancelNs)
 	} else {
@@ -592,7 +593,7 @@ func c19CASelection(w *emit.Writer) {
 				continue
 			}
 			e := &emit.Enc{}
-			e.Int(3).Str(o.CA).Str(o.TestCA).Bool(strings.Contains(o.CA, "://")).Str(o.Dir0).Str(o.Dir1).Bool(o.Using0).Bool(o.Using1)
+			e.Int(3).Str(ca).Str(tc).Str(o.CA).Str(o.TestCA).Bool(strings.Contains(o.CA, "://")).Str(o.Dir0).Str(o.Dir1).Bool(o.Using0).Bool(o.Using1)
 			w.Hist("kind=ca-selection")
 			w.Hist(fmt.Sprintf("ca_selection: test_ca_set=%v same_as_ca=%v", o.TestCA != "", o.CA == o.TestCA))
 			w.Add(emit.Case{Desc: map[string]any{"kind": "ca-selection", "class": "ca-selection"},
